@@ -130,7 +130,7 @@ def run(chk):
         "CTL sanitiser."
     )
     chk.not_decided = "boundary detection across chunk edges beyond the necessary condition C19.scan (first search on every path starts in the previous chunk), base64 quartet alignment, round-trip equality of contents."
-    chk.explanation += " Also decided: on every path the first search for the part delimiter starts in the previous chunk no later than len(delimiter)-1 before its end; in base64 mode input reaches the wire only through the carry buffer."
+    chk.explanation += " Also decided: on every path the first search for the part delimiter starts in the previous chunk no later than len(delimiter)-1 before its end; in base64 mode input reaches the wire only through the carry buffer. After the defect hunt: the _charset_ part is read like any part; sync and async part decoders both drain the decompressor; quoted-printable is encoded in binary mode."
     w = repo.cls(MP, "MultipartWriter")
     size = w.methods["size"]
     write = w.methods["write"]
